@@ -85,6 +85,10 @@ def rmc_shapes():
                 if "Ret" in seq[:2]:
                     continue
                 out.append(dict(seq=seq))
+                # the same sequence with one user nested in a region op (e.g. inside an scf.for): the pass must look into it
+                for n in range(3):
+                    if seq[n] not in ("N", "Ret"):
+                        out.append(dict(seq=seq, nest=n))
     return out
 
 
@@ -145,7 +149,14 @@ class RealizeMemrefCasts_placement_contract:
         other = SSAValue(None, dst_t)
         cast = LayoutCast(src, dst_t)
         users = [mk_user(k, cast.results[0], other) for k in sh["seq"]]
-        blk = Block([cast] + users)
+        top = list(users)
+        if "nest" in sh:
+            w = OtherOp([])
+            r = Region([Block([users[sh["nest"]]])])
+            r.parent = w
+            w.regions = [r]
+            top[sh["nest"]] = w
+        blk = Block([cast] + top)
         Region([blk])
         return [RealizeMemrefCasts(), cast, src, users, blk]
 
